@@ -10,7 +10,9 @@
 //!   --label TEXT          how the source file is named in the output (default: the path given)
 //!   --field S.f=name      Lean field name of the Rust field `f` of struct `S` (`S.f.m`: member `m` of the union-typed field `f`)
 //!   --inactive U.m=term   the value the field of union member `m` gets in a union literal that initialises another member
-//!   --prim 'SIG=term'     a function / constant taken as given: `T::f(A, B) -> R`, `T::f(self, A) -> R`, `T::C: R`; `_` = identity
+//!   --prim 'SIG=term'     a function / constant taken as given: `T::f(A, B) -> R`, `T::f(self, A) -> R`, `T::C: R`; `_` = identity;
+//!                         `T::f(&mut self, A) -> R`: the Lean function returns `(new receiver, result)`; `-> Outcome<R>`: it can panic;
+//!                         `::Name(T) -> R`: a tuple-struct constructor
 //!   --struct S            emit a Lean structure for the struct `S` of the file (PhantomData fields dropped)
 //! a function name may be `Type::name` (a method of another impl of the same file; emitted as `Type.name`)
 use rs2lean::{translate, Options};
